@@ -34,25 +34,35 @@ pub struct ChannelClosed;
 impl<T> Sender<T> {
     pub fn send(&mut self, value: T) -> Result<(), ChannelFull> {
         while let Some(value) = self.pending_messages.pop() {
+            #[cfg(fastrace_verif)]
+            crate::verif::hook(crate::verif::Point::SenderBeforePush);
             if let Err(PushError::Full(value)) = self.tx.push(value) {
                 self.pending_messages.push(value);
                 return Err(ChannelFull);
             }
         }
 
+        #[cfg(fastrace_verif)]
+        crate::verif::hook(crate::verif::Point::SenderBeforePush);
         self.tx.push(value).map_err(|_| ChannelFull)
     }
 
     pub fn force_send(&mut self, value: T) {
         while let Some(value) = self.pending_messages.pop() {
+            #[cfg(fastrace_verif)]
+            crate::verif::hook(crate::verif::Point::SenderBeforePush);
             if let Err(PushError::Full(value)) = self.tx.push(value) {
                 self.pending_messages.push(value);
                 break;
             }
         }
 
+        #[cfg(fastrace_verif)]
+        crate::verif::hook(crate::verif::Point::SenderBeforePush);
         if let Err(PushError::Full(value)) = self.tx.push(value) {
             self.pending_messages.push(value);
+            #[cfg(fastrace_verif)]
+            crate::verif::hook(crate::verif::Point::SenderParked);
         }
     }
 }
@@ -60,6 +70,8 @@ impl<T> Sender<T> {
 impl<T> Drop for Sender<T> {
     fn drop(&mut self) {
         for command in self.pending_messages.drain(..) {
+            #[cfg(fastrace_verif)]
+            crate::verif::hook(crate::verif::Point::SenderBeforePush);
             drop(self.tx.push(command));
         }
     }
@@ -69,6 +81,14 @@ impl<T> Receiver<T> {
     pub fn try_recv(&mut self) -> Result<Option<T>, ChannelClosed> {
         match self.rx.pop() {
             Ok(val) => Ok(Some(val)),
+            #[cfg(fastrace_verif)]
+            Err(_) if {
+                crate::verif::hook(crate::verif::Point::ReceiverEmpty);
+                false
+            } =>
+            {
+                unreachable!()
+            }
             Err(_) if self.rx.is_abandoned() => Err(ChannelClosed),
             Err(_) => Ok(None),
         }
